@@ -13,7 +13,17 @@ RULE = ("cases: byte strings of every length 0..300 (zeros / 0xff / random; thor
         "configuration; murmur3 on every length 0..70 and 255..257, 4095..4097, 65535..65537, 70000 x seeds {0, 1, 2^31, "
         "2^32-1, 2^32, 2^64+5, 0xFBA4C795, random 32- and 70-bit}; Bloom filters of 1..36,000 bytes x 1..50 hash functions x "
         "tweaks (same list) x 0..12 items of 0..40, 65 bytes through add_item / add_hash160 / add_address / add_spendable. "
-        "Non-trivial: every case (the empty input is a padding boundary); distinct by (operation, configuration, input).")
+        "Call HISTORIES (state kept between calls, on reused objects, at class/module level; aliasing of caller-owned buffers): "
+        "random programs of 4..14 steps over 1..3 caller-owned bytearrays - hash the buffer itself or an immutable copy through "
+        "hash160 / double_sha256 / hash.ripemd160 / contrib.ripemd160 (murmur3 positional and seed= spelling in the murmur shards), "
+        "edit it in place (one byte, whole content, back to an earlier content, grow/shrink) and ask again, repeat / alternate values, "
+        "keep several ripemd160 objects alive and read their digests later in another order (twice), make a failing call "
+        "(None / str / int argument) in between; Bloom histories over 1..3 filters alive together (positional or keyword constructor): "
+        "adds through the four entry points interleaved between filters, the public attributes tweak / hash_function_count reassigned "
+        "between adds, filter_bytes replaced by a fresh zero array, a failing add (bad-checksum address, None, object without "
+        "tx_hash) in between, elements passed as a bytearray the caller scribbles over afterwards; filter_bytes and "
+        "filter_load_params() read at intermediate points and at the end. "
+        "Non-trivial: every case (the empty input is a padding boundary); distinct by (operation, configuration, input / program).")
 ASSUMPTIONS = [
     "hashlib SHA-256 is correct; RIPEMD-160 oracle is hashlib/OpenSSL when present, cross-checked on every run against the "
     "from-specification implementation in vmon/refs/ripemd160.py (Bosselaers' nine published vectors incl. one million 'a', "
@@ -24,10 +34,16 @@ ASSUMPTIONS = [
     "the 'OpenSSL without ripemd160' configuration is simulated inside the worker by making hashlib.new('ripemd160') raise "
     "ValueError before pycoin.encoding.hash is imported (as on Ubuntu 22); libsecp/pycrypto paths are absent here",
     "add_spendable's element is tx_hash || uint32-LE index as held by the Spendable (BIP37 outpoint serialisation)",
+    "a bytearray is a byte string: its digest is the standard digest of its content at the time of the call",
+    "a Bloom filter announces filter_load_params(); an element added while (hash_function_count, tweak) had some value must set "
+    "exactly the BIP37 positions for those values (the values a peer is told if the filter is loaded then); when a public "
+    "attribute cannot be assigned (exception) or a deliberately invalid add does not raise, the history is dropped, not judged",
 ]
 EXPLANATION = ("every digest / hash / filter returned by pycoin is compared byte for byte with the reference; in the "
                "pure-Python configurations a tap on pycoin.contrib.ripemd160.ripemd160 must see the calls made through "
-               "hash160 (otherwise the configuration was not exercised and the run is inconclusive)")
+               "hash160 (otherwise the configuration was not exercised and the run is inconclusive); in a history the "
+               "reference is evaluated on a snapshot of the caller's buffer taken just before each call and a Bloom model "
+               "(one bit set per filter) follows every step")
 TIMEOUT = {"quick": 600, "thorough": 3 * 3600}
 
 ENV_PY = {"PYCOIN_USE_PYTHON_RIPEMD160": "1"}
@@ -52,16 +68,18 @@ def plan(tier, seed):
         for p in range(parts):
             shards.append({"kind": "digests", "config": cfg, "env": dict(env), "part": p, "parts": parts,
                            "fills": 8 if q else 16, "big": [10000] if q else [10000, 100000, 1000000],
-                           "n_random": 300 if q else 80000,
+                           "n_random": 300 if q else 80000, "n_hist": 350 if q else 40000,
                            "label": "digests-%s-%d" % (cfg, p)})
     shards.append({"kind": "digests", "config": "sim_no_native", "env": {}, "part": 0, "parts": 1, "fills": 2 if q else 6,
-                   "big": [10000], "n_random": 300 if q else 35000, "label": "digests-sim_no_native"})
+                   "big": [10000], "n_random": 300 if q else 35000, "n_hist": 350 if q else 20000,
+                   "label": "digests-sim_no_native"})
     nm = 4 if q else 12
     for p in range(nm):
-        shards.append({"kind": "murmur", "config": "native", "n": 9000 if q else 1500000, "part": p, "parts": nm, "label": "murmur%d" % p})
+        shards.append({"kind": "murmur", "config": "native", "n": 9000 if q else 1500000, "n_hist": 400 if q else 60000, "part": p, "parts": nm,
+                       "label": "murmur%d" % p})
     nb = 5 if q else 12
     for p in range(nb):
-        shards.append({"kind": "bloom", "config": "native", "n": 450 if q else 60000, "part": p, "label": "bloom%d" % p})
+        shards.append({"kind": "bloom", "config": "native", "n": 450 if q else 60000, "n_hist": 400 if q else 50000, "part": p, "label": "bloom%d" % p})
     return shards
 
 
@@ -368,6 +386,375 @@ def run_bloom(spec, rec, M):
                         "filter_bytes_head": RM.bip37_filter(_elements(c), c["size"], c["k"], int(c["tweak"]))[:32]})
 
 
+# -- call histories: state between calls, reused objects, caller-owned buffers -----------------------
+
+_BAD_ARGS = {"none": None, "str": "abc", "int": 7}
+_HLENS = [0, 1, 2, 3, 4, 5, 7, 8, 20, 32, 33, 36, 55, 56, 63, 64, 65, 119, 120, 128]
+
+
+def _fn_table(M):
+    """name -> (call(arg, seed), oracle(content, seed), digest length or None, mechanism name)."""
+    t = {}
+    cfg = M.config
+    if getattr(M, "hash", None) is not None:
+        t["ripemd160"] = (lambda a, s: M.hash.ripemd160(a).digest(), lambda d, s: RR.digest(d), 20, "ripemd160." + cfg)
+        t["hash160"] = (lambda a, s: M.hash.hash160(a), lambda d, s: RR.hash160(d), 20, "hash160." + cfg)
+        t["double_sha256"] = (lambda a, s: M.hash.double_sha256(a), lambda d, s: RR.double_sha256(d), 32, "double_sha256")
+        t["contrib"] = (lambda a, s: M.contrib_direct(a), lambda d, s: RR.digest(d), 20, "contrib_ripemd160")
+    if getattr(M, "bloom", None) is not None:
+        t["murmur3"] = (lambda a, s: M.bloom.murmur3(a, s), lambda d, s: RM.murmur3_32(d, s), None, "murmur3")
+        t["murmur3_kw"] = (lambda a, s: M.bloom.murmur3(a, seed=s), lambda d, s: RM.murmur3_32(d, s), None, "murmur3")
+    return t
+
+
+def _same(got, exp, n):
+    if n is None:
+        return isinstance(got, int) and not isinstance(got, bool) and got == exp
+    return isinstance(got, (bytes, bytearray)) and len(got) == n and bytes(got) == exp
+
+
+def check_history(case, rec, M):
+    """case: steps = ["new", slot, data] | ["edit", slot, offset, data] | ["set", slot, data] |
+    ["call", fn, slot, "buf"|"bytes", seed] | ["hold", h, slot] | ["digest", h] | ["bad", fn, what].
+    Every value returned must be the standard one for the content the buffer had when the call was made."""
+    fns = _fn_table(M)
+    steps = case["steps"]
+    rec.case((case["kind"], M.config, repr(steps)))
+    bufs, held, seen = {}, {}, []
+    edited = False
+    for st in steps:
+        op = st[0]
+        if op == "new":
+            bufs[st[1]] = bytearray(st[2])
+        elif op == "edit":
+            b, off, data = bufs[st[1]], int(st[2]), st[3]
+            b[off:off + len(data)] = data
+            edited = True
+        elif op == "set":
+            bufs[st[1]][:] = st[2]
+            edited = True
+        elif op == "bad":
+            rec.ev("history.call_with_invalid_argument")
+            observe(fns[st[1]][0], _BAD_ARGS[st[2]], 0)              # nothing is demanded of this call
+        elif op == "hold":
+            snap = bytes(bufs[st[2]])
+            rec.ev("history.ripemd160_object_kept")
+            s_, h = observe(M.hash.ripemd160, snap)
+            held[st[1]] = (s_, h, snap)
+        elif op == "digest":
+            s_, h, snap = held[st[1]]
+            exp = RR.digest(snap)
+            for again in (False, True):
+                rec.ev("history.ripemd160_object.digest_later")
+                s2, got = (s_, h) if s_ != "ok" else observe(h.digest)
+                if s2 != "ok" or not _same(got, exp, 20):
+                    stale = s2 == "ok" and any(_same(got, RR.digest(o), 20) for o in seen if o != snap)
+                    rec.violation("history.ripemd160.%s.object_digest_%s" % (M.config, "of_other_input" if stale else "mismatch")
+                                  + (".second_read" if again else ""), case, got, exp)
+                    return
+            seen.append(snap)
+        else:
+            fn, slot, how, seed = st[1], st[2], st[3], st[4]
+            seed = None if seed is None else int(seed)
+            call, oracle, n, name = fns[fn]
+            snap = bytes(bufs[slot])
+            exp = oracle(snap, seed)
+            rec.ev("history.%s.%s" % (fn, "callers_bytearray" if how == "buf" else "bytes"))
+            s_, got = observe(call, bufs[slot] if how == "buf" else snap, seed)
+            if s_ != "ok" or not _same(got, exp, n):
+                stale = s_ == "ok" and any(_same(got, oracle(o, seed), n) for o in seen if o != snap)
+                mech = "history.%s.%s" % (name, "value_of_earlier_content" if stale else "mismatch")
+                if edited and stale:
+                    mech += ".after_inplace_edit"
+                rec.violation(mech, case, got, exp)
+                return
+            seen.append(snap)
+
+
+def _rb(rng, n):
+    return bytes(rng.getrandbits(8) for _ in range(n))
+
+
+def _hlen(rng):
+    return rng.choice(_HLENS + [rng.randrange(0, 41), rng.randrange(0, 200)])
+
+
+def _rand_edit(rng, slot, contents, pool):
+    """An in-place change of a caller-owned buffer (the object stays the same)."""
+    cur = contents[slot]
+    r = rng.random()
+    if cur and r < 0.45:
+        off = rng.choice([0, len(cur) - 1, rng.randrange(len(cur))])
+        new = bytes([cur[off] ^ rng.choice([1, 0x80, 0xff, rng.randrange(1, 256)])])
+        contents[slot] = cur[:off] + new + cur[off + 1:]
+        step = ["edit", slot, off, new]
+    elif cur and r < 0.6:
+        new = _rb(rng, len(cur))                                  # next record read into the same buffer
+        contents[slot] = new
+        step = ["edit", slot, 0, new]
+    elif r < 0.8:
+        new = rng.choice(pool)                                    # back to a content seen before
+        contents[slot] = new
+        step = ["set", slot, new]
+    elif r < 0.9:
+        new = cur + _rb(rng, rng.choice([1, 1, 4, 9, 64]))
+        contents[slot] = new
+        step = ["set", slot, new]
+    else:
+        new = cur[:rng.randrange(len(cur) + 1)]
+        contents[slot] = new
+        step = ["set", slot, new]
+    pool.append(contents[slot])
+    return step
+
+
+def _rand_history(rng, kind, fns, seeded):
+    nslots = rng.choice([1, 1, 2, 3])
+    steps, contents, pool = [], {}, []
+    for s in range(nslots):
+        L = _hlen(rng)
+        data = bytes([rng.choice([0, 0x80, 0xff])]) * L if rng.random() < 0.1 else _rb(rng, L)
+        if s and rng.random() < 0.3:
+            data = contents[0]                                    # two distinct buffers, equal content
+        contents[s] = data
+        pool.append(data)
+        steps.append(["new", s, data])
+    n = nslots + rng.randrange(4, 15)
+    last, held, nh = None, [], 0
+    while len(steps) < n:
+        r = rng.random()
+        if last is not None and r < 0.35:
+            fn, s, seed = last
+            steps.append(_rand_edit(rng, s, contents, pool))
+            if seeded and rng.random() < 0.3:
+                seed = _seed(rng)
+            if rng.random() < 0.15:
+                fn = rng.choice(fns)
+            steps.append(["call", fn, s, rng.choice(["buf", "buf", "bytes"]), seed])
+            last = (fn, s, seed) if rng.random() < 0.7 else None
+        elif r < 0.72:
+            fn, s = rng.choice(fns), rng.randrange(nslots)
+            if last is not None and rng.random() < 0.4:
+                fn = last[0]
+            seed = (last[2] if last is not None and rng.random() < 0.5 else _seed(rng)) if seeded else None
+            steps.append(["call", fn, s, rng.choice(["buf", "buf", "bytes"]), seed])
+            last = (fn, s, seed)
+        elif r < 0.82:
+            steps.append(_rand_edit(rng, rng.randrange(nslots), contents, pool))
+        elif r < 0.93 and not seeded:
+            if held and rng.random() < 0.4:
+                steps.append(["digest", held.pop(rng.randrange(len(held)))])
+            else:
+                steps.append(["hold", nh, rng.randrange(nslots)])
+                held.append(nh)
+                nh += 1
+        elif r >= 0.93:
+            steps.append(["bad", rng.choice(fns), rng.choice(sorted(_BAD_ARGS))])
+    rng.shuffle(held)
+    for h in held:
+        steps.append(["digest", h])
+    return {"kind": kind, "steps": steps}
+
+
+def run_histories(spec, rec, M, kind):
+    rng = shard_rng(spec["seed"], PROPERTY, spec["tier"], spec["shard"], salt="hist")
+    if kind == "dhist":
+        fns, weights = ["ripemd160", "hash160", "double_sha256", "contrib"], [5, 3, 1, 2]
+    else:
+        fns, weights = ["murmur3", "murmur3_kw"], [1, 1]
+    wf = [f for f, w in zip(fns, weights) for _ in range(w)]
+    for i in range(spec.get("n_hist", 0)):
+        c = _rand_history(rng, kind, wf, seeded=(kind == "mhist"))
+        c["config"] = M.config
+        check_history(c, rec, M)
+        if i == 0 and spec["part"] == 0:
+            rec.sample({"op": "call history", "config": M.config, "steps": c["steps"]})
+
+
+# -- Bloom histories: several filters alive, public attributes reassigned, failing adds ------------
+
+def _bh_mech(case, upto, f):
+    before = case["steps"][:upto + 1]
+    if any(s[0] == "attr" and s[1] == f for s in before):
+        return "after_param_reassigned"
+    if any(s[0] == "clear" and s[1] == f for s in before):
+        return "after_filter_bytes_replaced"
+    if any(s[0] == "make" and s[1] != f for s in before):
+        return "other_filter_alive"
+    if any(s[0] == "bad" for s in before):
+        return "after_failed_add"
+    if any(s[0] == "add" and s[5] for s in before):
+        return "callers_buffer_reused"
+    return "plain"
+
+
+def check_bloom_history(case, rec, M):
+    """case: filters = [[size, k, tweak, keyword_constructor], ...]; steps = ["make", f] | ["add", f, how, data, extra, scribble] |
+    ["attr", f, "tweak"|"hash_function_count", value] | ["clear", f] | ["bad", f, how] | ["check", f]."""
+    rec.case(("bhist", repr(case["filters"]), repr(case["steps"])))
+    live, model = {}, {}
+
+    def verify(i, f):
+        bf, m = live[f], model[f]
+        exp = bytes(m["bits"])
+        rec.ev("history.BloomFilter.filter_bytes")
+        s_, got = observe(lambda: bytes(bf.filter_bytes))
+        if s_ != "ok" or got != exp:
+            missing = s_ != "ok" or len(got) != len(exp) or any(e & ~g for e, g in zip(exp, got))
+            extra = s_ == "ok" and any(g & ~e for e, g in zip(exp, got))
+            rec.violation("bloom.history.bits_%s.%s" % ("wrong_positions" if missing and extra else "missing" if missing else "extra",
+                                                        _bh_mech(case, i, f)), case,
+                          got[:64] if s_ == "ok" else got, exp[:64], detail={"filter": f, "step": i})
+            return False
+        rec.ev("history.BloomFilter.filter_load_params")
+        s_, params = observe(bf.filter_load_params)
+        if s_ != "ok" or bytes(params[0]) != exp or params[1] != m["k"] or params[2] != m["tweak"]:
+            rec.violation("bloom.history.filter_load_params_mismatch." + _bh_mech(case, i, f), case,
+                          params if s_ != "ok" else [params[1], params[2]], [m["k"], m["tweak"]], detail={"filter": f, "step": i})
+            return False
+        return True
+
+    for i, st in enumerate(case["steps"]):
+        op, f = st[0], st[1]
+        if op == "make":
+            size, k, tweak, kw = case["filters"][f]
+            tweak = int(tweak)
+            rec.ev("history.BloomFilter.constructed_" + ("keywords" if kw else "positional"))
+            if kw:
+                s_, bf = observe(M.bloom.BloomFilter, size_in_bytes=size, hash_function_count=k, tweak=tweak)
+            else:
+                s_, bf = observe(M.bloom.BloomFilter, size, k, tweak)
+            if s_ != "ok":
+                rec.violation("bloom.constructor_raises", case, bf, "filter")
+                return
+            live[f] = bf
+            model[f] = {"size": size, "k": k, "tweak": tweak, "bits": bytearray(size)}
+        elif op == "add":
+            how, data, extra, scribble = st[2], st[3], st[4], st[5]
+            bf, m = live[f], model[f]
+            element = data
+            rec.ev("history.BloomFilter.add_" + how)
+            if how == "item" or how == "hash160":
+                arg = bytearray(data) if scribble else data
+                s_, r = observe(bf.add_item if how == "item" else bf.add_hash160, arg)
+                if scribble:
+                    rec.ev("history.BloomFilter.callers_buffer_overwritten_after_add")
+                    for j in range(len(arg)):
+                        arg[j] ^= 0xa5
+            elif how == "address":
+                s_, r = observe(bf.add_address, RB.encode_check(bytes([extra]) + data))
+            else:
+                sp = M.Spendable(coin_value=1000, script=b"\x51", tx_hash=data, tx_out_index=extra)
+                s_, r = observe(bf.add_spendable, sp)
+                element = data + int(extra).to_bytes(4, "little")
+            if s_ != "ok":
+                rec.violation("bloom.history.add_raises.%s.%s" % (how, _bh_mech(case, i, f)), case, r, None)
+                return
+            for pos in RM.bip37_positions(element, m["size"], m["k"], m["tweak"]):
+                m["bits"][pos >> 3] |= 1 << (pos & 7)
+        elif op == "attr":
+            name, value = st[2], int(st[3])
+            rec.ev("history.BloomFilter.%s_reassigned" % name)
+            s_, r = observe(setattr, live[f], name, value)
+            if s_ != "ok":
+                rec.ev("history.BloomFilter.attribute_not_assignable")      # not judged
+                return
+            model[f]["k" if name == "hash_function_count" else "tweak"] = value
+        elif op == "clear":
+            rec.ev("history.BloomFilter.filter_bytes_replaced")
+            s_, r = observe(setattr, live[f], "filter_bytes", bytearray(model[f]["size"]))
+            if s_ != "ok":
+                rec.ev("history.BloomFilter.attribute_not_assignable")
+                return
+            model[f]["bits"] = bytearray(model[f]["size"])
+        elif op == "bad":
+            how = st[2]
+            rec.ev("history.BloomFilter.failing_add")
+            bf = live[f]
+            if how == "address":
+                good = RB.encode_check(b"\x00" + bytes(20))
+                s_, r = observe(bf.add_address, good[:-1] + ("2" if good[-1] != "2" else "3"))
+            elif how == "none":
+                s_, r = observe(bf.add_item, None)
+            else:
+                s_, r = observe(bf.add_spendable, object())
+            if s_ == "ok":
+                rec.ev("history.BloomFilter.invalid_add_did_not_raise")      # element unknown: not judged
+                return
+        else:
+            if not verify(i, f):
+                return
+    last = len(case["steps"]) - 1
+    for f in sorted(live):
+        if not verify(last, f):
+            return
+
+
+def _rand_item(rng):
+    r = rng.random()
+    if r < 0.55:
+        L = rng.choice([0, 1, 2, 3, 4, 5, 6, 7, 20, 32, 33, 36, 65, rng.randrange(0, 41)])
+        return ["item", _rb(rng, L), None, rng.random() < 0.35]
+    if r < 0.7:
+        return ["hash160", _rb(rng, 20), None, rng.random() < 0.35]
+    if r < 0.85:
+        return ["address", _rb(rng, 20), rng.choice([0, 5, 111, 196]), False]
+    return ["spendable", _rb(rng, 32), rng.choice([0, 1, 2, 255, 256, 65535, (1 << 32) - 1, rng.getrandbits(32)]), False]
+
+
+def _rand_k(rng):
+    return rng.choice([1, 2, 3, 5, 5, 8, 11, 20, 49, 50, rng.randrange(1, 51)])
+
+
+def _rand_tweak(rng):
+    return rng.choice(SEEDS + [127, 2147483649, rng.getrandbits(32), rng.getrandbits(32), rng.getrandbits(66) | (1 << 65)])
+
+
+def _rand_bhist(rng):
+    nf = rng.choice([1, 1, 2, 2, 3])
+    filters = []
+    for _ in range(nf):
+        size = rng.choice([1, 2, 3, 7, 8, 9, 20, 64, 100, 1000, rng.randrange(1, 50), rng.randrange(1, 600),
+                           rng.choice([4500, 35999, 36000])])
+        filters.append([size, _rand_k(rng), _rand_tweak(rng), rng.random() < 0.4])
+    steps = [["make", 0]]
+    made = 1
+    n = rng.randrange(3, 13)
+    while len(steps) < n:
+        f = rng.randrange(made)
+        r = rng.random()
+        if made < nf and r < 0.3:
+            steps.append(["make", made])
+            made += 1
+        elif r < 0.62:
+            steps.append(["add", f] + _rand_item(rng))
+        elif r < 0.8:
+            if rng.random() < 0.5:
+                steps.append(["attr", f, "tweak", _rand_tweak(rng)])
+            else:
+                steps.append(["attr", f, "hash_function_count", _rand_k(rng)])
+            if rng.random() < 0.8:
+                steps.append(["add", f] + _rand_item(rng))
+        elif r < 0.85:
+            steps.append(["clear", f])
+        elif r < 0.92:
+            steps.append(["bad", f, rng.choice(["address", "none", "spendable"])])
+        else:
+            steps.append(["check", f])
+    if not any(s[0] == "add" for s in steps):
+        steps.append(["add", rng.randrange(made)] + _rand_item(rng))
+    return {"kind": "bhist", "filters": filters, "steps": steps}
+
+
+def run_bloom_histories(spec, rec, M):
+    rng = shard_rng(spec["seed"], PROPERTY, spec["tier"], spec["shard"], salt="hist")
+    for i in range(spec.get("n_hist", 0)):
+        c = _rand_bhist(rng)
+        check_bloom_history(c, rec, M)
+        if i == 0 and spec["part"] == 0:
+            rec.sample({"op": "BloomFilter history", "filters": c["filters"], "steps": c["steps"]})
+
+
 # ---------------------------------------------------------------------------------------------
 
 def _bloom_imports(rec):
@@ -391,23 +778,41 @@ def run_shard(spec, rec):
             # the configuration counts as exercised only if hash160 really went through the bundled implementation
             rec.require("tap:contrib.ripemd160.via_hash160:" + spec["config"])
         run_digests(spec, rec, M)
+        if spec.get("n_hist"):
+            rec.require("history.ripemd160.callers_bytearray", "history.ripemd160_object.digest_later")
+            run_histories(spec, rec, M, "dhist")
     elif kind == "murmur":
         rec.require("murmur3")
-        run_murmur(spec, rec, _bloom_imports(rec))
+        M = _bloom_imports(rec)
+        run_murmur(spec, rec, M)
+        if spec.get("n_hist"):
+            rec.require("history.murmur3.callers_bytearray", "history.murmur3_kw.bytes")
+            run_histories(spec, rec, M, "mhist")
     else:
         rec.require("BloomFilter.add_item", "BloomFilter.filter_bytes")
-        run_bloom(spec, rec, _bloom_imports(rec))
+        M = _bloom_imports(rec)
+        run_bloom(spec, rec, M)
+        if spec.get("n_hist"):
+            rec.require("history.BloomFilter.tweak_reassigned", "history.BloomFilter.hash_function_count_reassigned",
+                        "history.BloomFilter.filter_bytes")
+            run_bloom_histories(spec, rec, M)
 
 
 def replay_case(case, rec):
     kind = case.get("kind")
-    if kind in ("digest", "import"):
+    if kind == "mhist":
+        check_history(case, rec, _bloom_imports(rec))
+    elif kind == "bhist":
+        check_bloom_history(case, rec, _bloom_imports(rec))
+    elif kind in ("digest", "import", "dhist"):
         import os
         cfg = case.get("config", "native")
         if cfg == "python" and not os.environ.get("PYCOIN_USE_PYTHON_RIPEMD160"):
             rec.note("replay of a 'python' configuration case without PYCOIN_USE_PYTHON_RIPEMD160 in the environment")
         M = _imports(cfg, rec)
-        if M is not None and kind == "digest":
+        if M is not None and kind == "dhist":
+            check_history(case, rec, M)
+        elif M is not None and kind == "digest":
             check_digests(_fix(case), rec, M, want_pure_check=case["len"] <= 2000)
     elif kind == "murmur":
         M = _bloom_imports(rec)
